@@ -8,7 +8,7 @@ import threading
 import time
 import traceback
 
-from vlib import schedfuzz, srvharness as SH, srvtargets as ST, watch
+from vlib import schedfuzz, srvharness as SH, srvtargets as ST, targets, watch
 
 PROPERTY = 'C04'
 LEVEL = 'fault_enumeration'
@@ -109,6 +109,9 @@ def gen_cases(tier, seed):
         cases = thr[:260] + picked[:48]
     rng.shuffle(cases)
     cases += [{'kind': 'async-classes', 'leaf': 'T'}, {'kind': 'async-classes', 'leaf': 'P'}]
+    for layout in ('P', 'TP'):
+        for where in ('input', 'result', 'raise', 'input-unloadable', 'result-unloadable'):
+            cases.append({'kind': 'untransportable', 'layout': layout, 'where': where})
     return cases
 
 
@@ -196,9 +199,85 @@ def _async_classes(case):
             'sample': {'kind': 'async-classes', 'leaf': case['leaf'], 'classes': len(classes), 'requests': obs['requests']}}
 
 
+def _untransportable(case):
+    """A request whose input, result or exception payload cannot be pickled -- with each of the error classes a pickling attempt may end in --
+    between ordinary requests issued concurrently: it must fail alone, with an error (not a timeout) that names the pickling failure."""
+    from mpservice.mpserver import ProcessServlet, SequentialServlet, Server, ThreadServlet
+
+    viol = []
+    obs = {'lifetimes': 1, 'requests': 0, 'failed_requests': 0, 'ok_requests': 0, 'untransportable_lifetimes': 1, 'process_lifetimes': 1}
+    if case['layout'] == 'P':
+        servlet = ProcessServlet(ST.TagWorker, tag='A', cpus=[0, 1])
+        bad_tag = 'A'
+    else:
+        servlet = SequentialServlet(ThreadServlet(ST.TagWorker, tag='A', num_threads=2), ProcessServlet(ST.TagWorker, tag='B', cpus=[0]))
+        bad_tag = 'A' if case['where'] != 'raise' else 'B'
+    kinds = ['pickling', 'runtime', 'recursion', 'value', 'notimpl']
+    marker = 'vf-unpicklable'
+    if case['where'].endswith('unloadable'):
+        kinds = ['value', 'type', 'runtime', 'import']
+        marker = 'vf-unloadable'
+    results = {}
+    lock = threading.Lock()
+
+    def body():
+        with Server(servlet, capacity=32) as server:
+            for rd, kind in enumerate(kinds):
+                if case['where'] == 'input':
+                    bad = ('tok', 9, rd, (('_', 'unpicklable', targets.Unpicklable(kind)),))
+                elif case['where'] == 'result':
+                    bad = ('tok', 9, rd, ((bad_tag, 'return-unpicklable', kind),))
+                elif case['where'] == 'input-unloadable':
+                    bad = ('tok', 9, rd, (('_', 'unloadable', targets.Unloadable(kind)),))  # pickles in this process, cannot be rebuilt in the worker process
+                elif case['where'] == 'result-unloadable':
+                    bad = ('tok', 9, rd, (('B' if case['layout'] == 'TP' else 'A', 'return-unloadable', kind),))  # returned by a process worker, cannot be rebuilt in this process
+                else:
+                    bad = ('tok', 9, rd, ((bad_tag, 'raise-unpicklable', kind),))
+                reqs = [('tok', rd, i, ((bad_tag, 'sleep', 0.01),)) for i in range(3)] + [bad] + [('tok', rd, i, ()) for i in range(3, 6)]
+
+                def one(t):
+                    t0 = time.monotonic()
+                    try:
+                        y = server.call(t, timeout=6)
+                    except BaseException as e:  # noqa: BLE001
+                        y = e
+                    with lock:
+                        results[(rd, t[1], t[2])] = (t, y, time.monotonic() - t0, kind)
+
+                ths = [threading.Thread(target=one, args=(t,)) for t in reqs]
+                for th in ths:
+                    th.start()
+                    time.sleep(0.005)
+                for th in ths:
+                    th.join()
+
+    try:
+        watch.run_bounded(body, BOUND + 40, 'server lifetime with untransportable requests')
+    except watch.Hang as h:
+        viol.append({'mech': 'failalone/hang', 'msg': 'lifetime did not finish', 'stacks': h.stacks})
+        return {'violations': viol, 'obs': obs, 'exit_after': True}
+    except BaseException as e:  # noqa: BLE001
+        viol.append({'mech': 'failalone/server-broken-by-untransportable-request', 'msg': f'{case["layout"]} / {case["where"]}: the server lifetime raised {e!r}'[:400]})
+    for (rd, c, i), (t, y, el, kind) in sorted(results.items()):
+        obs['requests'] += 1
+        if c == 9:
+            obs['failed_requests'] += 1
+            if not isinstance(y, BaseException) or el > 5 or marker not in (repr(y) + repr(getattr(y, '__cause__', ''))):
+                viol.append({'mech': 'failalone/failure-not-delivered' if el > 5 else 'failalone/wrong-error',
+                             'msg': f'{case["layout"]}: request whose {case["where"]} cannot be pickled ({kind}: the attempt raises that class) got {y!r} after {el:.2f}s; expected an error naming the pickling failure'[:500]})
+        else:
+            obs['ok_requests'] += 1
+            if isinstance(y, BaseException):
+                viol.append({'mech': 'failalone/innocent-request-failed', 'msg': f'{case["layout"]}: ordinary request {t[1:3]} issued next to one whose {case["where"]} cannot be pickled ({kind}) got {y!r}'[:500]})
+    return {'violations': viol[:5], 'obs': obs, 'nontrivial': True, 'sig': hash(('untransportable', case['layout'], case['where'])) & 0xFFFFFFFFFFFF, 'exit_after': True,
+            'sample': {'kind': 'untransportable', 'layout': case['layout'], 'where': case['where'], 'requests': obs['requests']}}
+
+
 def run_case(case):
     if case.get('kind') == 'async-classes':
         return _async_classes(case)
+    if case.get('kind') == 'untransportable':
+        return _untransportable(case)
     import mpservice.mpserver._worker as W
     from mpservice.mpserver import Server
 
